@@ -85,7 +85,7 @@ def r1(ctx):
         for c in _access_calls(repo, f) + [c for c, q in repo.calls_in(f) if q == GLOG + ".Logger.access" and not (isinstance(c.func, ast.Attribute) and "log" in norm(c.func.value))]:
             n += 1
             ctx.check("C19.R1", f.qualname in allowed, key(f, "access-site"), site(f, c), "unreviewed access-log call site (a request could be logged twice)", "reviewed call site")
-    ctx.floor("C19.R1", "access-log call sites", n, 5)
+    ctx.floor("C19.R1", "access-log call sites", n, 3)
     fs = ctx.fn(repo.func("gunicorn.instrument.statsd.Statsd.access"))
     dl = [nn for c, q in repo.calls_in(fs) if q == GLOG + ".Logger.access" for nn in nodes_with(fs, c)]
     ctx.check("C19.R1", len(dl) == 1 and fs.cfg.dominates(dl[0], fs.cfg.exit, follow_exc=False), key(fs, "delegates-once"), site(fs), "Statsd.access does not delegate exactly once to Logger.access on every path", "Logger.access(..) once")
